@@ -52,9 +52,40 @@ decreasing_by
   simp only [List.length_drop]
   split <;> omega
 
-/-- `file_write(file, offset, cur, end)` -/
+/-- `file_write(file, offset, cur, end)`; a reported failure is counted in the ghost `wfails` -/
 def fileWrite (os : Os) (fd : Fd) (offset : Nat) (buf : Bytes) : Os × Bool :=
-  fileWriteLoop os fd offset buf 0
+  match fileWriteLoop os fd offset buf 0 with
+  | (os, true) => (os, true)
+  | (os, false) => ({ os with wfails := os.wfails + 1 }, false)
+
+theorem fileWrite_snd (os : Os) (fd off : Nat) (buf : Bytes) :
+    (fileWrite os fd off buf).2 = (fileWriteLoop os fd off buf 0).2 := by
+  unfold fileWrite; cases fileWriteLoop os fd off buf 0 with | mk o b => cases b <;> rfl
+
+theorem fileWrite_log_eq (os : Os) (fd off : Nat) (buf : Bytes) :
+    (fileWrite os fd off buf).1.log = (fileWriteLoop os fd off buf 0).1.log := by
+  unfold fileWrite; cases fileWriteLoop os fd off buf 0 with | mk o b => cases b <;> rfl
+
+theorem fileWrite_fds_eq (os : Os) (fd off : Nat) (buf : Bytes) :
+    (fileWrite os fd off buf).1.fds = (fileWriteLoop os fd off buf 0).1.fds := by
+  unfold fileWrite; cases fileWriteLoop os fd off buf 0 with | mk o b => cases b <;> rfl
+
+theorem fileWrite_files_eq (os : Os) (fd off : Nat) (buf : Bytes) :
+    (fileWrite os fd off buf).1.files = (fileWriteLoop os fd off buf 0).1.files := by
+  unfold fileWrite; cases fileWriteLoop os fd off buf 0 with | mk o b => cases b <;> rfl
+
+theorem fileWrite_dirs_eq (os : Os) (fd off : Nat) (buf : Bytes) :
+    (fileWrite os fd off buf).1.dirs = (fileWriteLoop os fd off buf 0).1.dirs := by
+  unfold fileWrite; cases fileWriteLoop os fd off buf 0 with | mk o b => cases b <;> rfl
+
+theorem fileWrite_oracle_eq (os : Os) (fd off : Nat) (buf : Bytes) :
+    (fileWrite os fd off buf).1.oracle = (fileWriteLoop os fd off buf 0).1.oracle := by
+  unfold fileWrite; cases fileWriteLoop os fd off buf 0 with | mk o b => cases b <;> rfl
+
+theorem fileWrite_wfails_eq (os : Os) (fd off : Nat) (buf : Bytes) :
+    (fileWrite os fd off buf).1.wfails =
+      (fileWriteLoop os fd off buf 0).1.wfails + (if (fileWriteLoop os fd off buf 0).2 = true then 0 else 1) := by
+  unfold fileWrite; cases fileWriteLoop os fd off buf 0 with | mk o b => cases b <;> simp
 
 /-- `file_create`: `some fd` = success with `file->fid = fd`; on failure the
     caller's `fid` is garbage (-1 or a closed number) and is modelled as unchanged -/
